@@ -569,7 +569,7 @@ String File::getRelativePath(const String& from, const String& to)
     simFrom.resize(simFrom.length() - 1);
     const char* newEnd = simFrom.findLast('/');
     if(!newEnd)
-      break;
+      return result + simTo; // no common directory: climb up to the start directory of both relative paths
     simFrom.resize((newEnd - (const char*)simFrom) + 1);
     if(String::compare((const char*)simTo, (const char*)simFrom, simFrom.length()) == 0)
     {
